@@ -70,5 +70,8 @@ def dispatch (kernel : String) (args : List String) : List String :=
       let C := fun (m : Nat) (n : Int) => getF v ((n + ntor).toNat * (mpol + 1) + m)
       let S := fun (m : Nat) (n : Int) => getF v (sz + (n + ntor).toNat * (mpol + 1) + m)
       [outF "val" ((List.range npts).map fun p => ToFourier.inverse Float.sin Float.cos nfp mpol ntor C S v[2 * sz + 2 * p]! v[2 * sz + 2 * p + 1]!)]
+  | "dof", lines =>
+      -- one argument per op line, with '_' standing for the blanks inside a line ("set_1_2_3"); one `out resp` per line
+      (Dof.runOps (lines.map fun l => l.replace "_" " ")).map fun r => s!"out resp {r}"
   | _, _ => [s!"error unknown-kernel {kernel}"]
 end Hand
